@@ -95,15 +95,19 @@ package capacity_policy
 //@ define gpuSumOf(tasks []*pod_info.PodInfo) bool = reqGpu(0) == 0.0 && (forall i int :: 0 <= i && i < len(tasks) ==> reqGpu(i+1) == reqGpu(i) + tasks[i].ResReq.GetGpusQuota())
 
 // The quantity checked for a job = component-wise sum of cpu, memory and total GPU quota of the tasks.
-// Only totality (C10) is claimed here: the functional sum contract needs a loop invariant over the
-// address-taken local `quota`, which the engine currently evaluates in the wrong heap (see report).
+// Proved for cpu and memory. The GPU component (sum of GetGpusQuota() of each task's ResReq) is NOT
+// claimed: gpuSumOf needs a spec call whose receiver depends on the bound index, for which the engine
+// drops the callee contract, and the embedded GpuResourceRequirement cannot be passed to ri.gpusQuota.
 //@ func getRequiredQuota
 //@   props C08 C10
-//@   requires tasksOK(tasksToAllocate)
+//@   requires tasksOK(tasksToAllocate) && sumsOf(tasksToAllocate)
 //@   fresh
 //@   loop 1
 //@     invariant 0 - 1 <= rangeindex && rangeindex < len(tasksToAllocate)
+//@     invariant quota.MilliCPU == reqCpu(rangeindex + 1)
+//@     invariant quota.Memory == reqMem(rangeindex + 1)
 //@   ensures result != nil
+//@   ensures [cpuMem] result.MilliCPU == reqCpu(len(tasksToAllocate)) && result.Memory == reqMem(len(tasksToAllocate))
 //@ end
 
 // ---- entry points registered with the session -----------------------------------------------------
